@@ -671,13 +671,16 @@ def mutate_envelope(tpl: Template, cls: str, v: int) -> bytes:
         el.text = 'x' * (1 + 40 * (v % 3))
         if v % 2:
             el.set(f'{{{S12}}}mustUnderstand', 'false')
-    elif cls in ('num_huge', 'num_negative'):
+    elif cls in ('num_huge', 'num_negative', 'num_zero'):
         found = _find_number(root)
         if found is None:
             raise MachineryError(f'{tpl.target}: no number to mutate')
         if cls == 'num_huge':
             val = ('9' * 40, str(2 ** 64 - 1), str(2 ** 63))[v % 3]
             dur = ('PT' + '9' * 40 + 'S', 'P99999999Y', 'PT1E400S')[v % 3]
+        elif cls == 'num_zero':
+            val = ('0', '0.0', '00')[v % 3]
+            dur = ('PT0S', 'P0D', 'PT0.0S')[v % 3]
         else:
             val = ('-1', '-' + '9' * 40, '-0')[v % 3]
             dur = ('-PT1S', '-P99999999Y', 'PT-1S')[v % 3]
